@@ -147,9 +147,9 @@ class Scenario(object):
         spk, p2s, listed, m = self.puz[i]
         return len(self.supplied & set(listed)) >= m
 
-    def do_pass(self, keys, mech, idxset):
+    def do_pass(self, keys, mech, idxset, ht=None):
         N, tx = self.N, self.tx
-        kw = dict(hash_type=self.ht)
+        kw = dict(hash_type=self.ht if ht is None else ht)
         if idxset is not None:
             kw["tx_in_idx_set"] = set(idxset)
         if mech == "lookup":
@@ -174,11 +174,13 @@ class Scenario(object):
         else:
             raise ValueError(mech)
 
-    def step(self, keys, mech, idxset):
+    def step(self, keys, mech, idxset, ht=None):
+        self.hts_used = getattr(self, "hts_used", set())
+        self.hts_used.add(self.ht if ht is None else ht)
         before, unsp_before = self.snapshot()
         asked = set(range(len(self.puz))) if idxset is None else set(idxset)
         try:
-            self.do_pass(keys, mech, idxset)
+            self.do_pass(keys, mech, idxset, ht)
         except Exception as e:
             raise Violation("pass-raises", "signing pass returns", "EXC %s: %s" % (type(e).__name__, e))
         if mech == "keychain":
@@ -239,7 +241,8 @@ class Scenario(object):
                         raise Violation("I3-canonical", "minimal pushes", "non-minimal push in scriptSig of input %d" % i)
                 elif op > R.OP_16:
                     raise Violation("I3-canonical", "push-only scriptSig", "opcode 0x%02x" % op)
-            want = self.ht | (0x40 if self.coin in FORKID else 0)
+            wants = set(h | (0x40 if self.coin in FORKID else 0) for h in self.hts_used)
+            want = sorted(wants)[0]
             for it in items:
                 if len(it) >= 9 and it[0] == 0x30 and it != PLACEHOLDER and it not in self.p2s and len(it) <= 73:
                     if not R.valid_sig_encoding(it):
@@ -247,8 +250,8 @@ class Scenario(object):
                     rs = R.parse_der_lax(it[:-1])
                     if rs is None or rs[1] > R.N // 2:
                         raise Violation("I3-lowS", "low-S signature", it.hex())
-                    if it[-1] != want:
-                        raise Violation("I3-hashtype", "hash type 0x%02x" % want, "0x%02x" % it[-1], kind=self.kinds[i])
+                    if it[-1] not in wants:
+                        raise Violation("I3-hashtype", "hash type %s" % "/".join("0x%02x" % w for w in sorted(wants)), "0x%02x" % it[-1], kind=self.kinds[i])
             self.valid_before[i] = rv
         try:
             bc = self.tx.bad_solution_count(flags=flags_impl)
@@ -266,8 +269,8 @@ def run_history(case):
         return BAD("setup", "scenario can be built", "EXC %s: %s" % (type(e).__name__, e), clause="setup")
     k = -1
     try:
-        for k, (keys, mech, idxset) in enumerate(case["passes"]):
-            sc.step(keys, mech, idxset)
+        for k, ps in enumerate(case["passes"]):
+            sc.step(ps[0], ps[1], ps[2], ps[3] if len(ps) > 3 else None)
     except Violation as v:
         return BAD(v.clause, v.ref, "after pass %d %r: %s" % (k, case["passes"][k], v.impl), n=k + 1, clause=v.clause,
                    coin=case["coin"], kinds=[x[0] for x in inputs], ht=case["ht"], mech=case["passes"][k][1], **v.tags)
@@ -367,6 +370,10 @@ class Orders(_Base):
                                 base = [[[k], mech, None] for k in perm]
                                 inputs = [[kind, m, n, 0], ["p2pkh", 1, 1, 9]]
                                 yield dict(coin=coin, seed=self.seed, ht=ht, inputs=inputs, passes=base)
+                                if n >= 2:
+                                    # every pass with its own hash type (earlier signatures must survive later passes)
+                                    mixed = [[[k], mech, None, HTS[(j + ci) % len(HTS)]] for j, k in enumerate(perm)]
+                                    yield dict(coin=coin, seed=self.seed, ht=ht, inputs=inputs, passes=mixed)
                                 for pos in range(len(base) + 1):
                                     yield dict(coin=coin, seed=self.seed, ht=ht, inputs=inputs, passes=base[:pos] + [[[20], mech, None]] + base[pos:])
                                     if pos > 0:
